@@ -133,6 +133,25 @@ def ir_cases(rng, tier, only_wf=True):
                         cases.append("1 2 | %s" % " ".join(map(str, method_row(recv, im, ret, 2, args))))
     rows = [method_row(0, 0, 15, 2, []), method_row(1, 0, 6, 3, [(0, 2)]), method_row(0, 2, 11, 2, []), method_row(0, 2, 15, 4, []), method_row(1, 1, 7, 0, []), method_row(0, 0, 12, 2, [])]
     cases.append("1 2 | %s" % " ; ".join(" ".join(map(str, r)) for r in rows))
+    # #[skip_func] methods (receiver field +32) are not exported: no slot, no wrapper, no forwarding method, and the slots after them do not shift;
+    # methods declared `extern "C" fn` (receiver field +64) get the same glue as any other (arguments wrapped, entries extern "C")
+    for pos in range(3):
+        for recv in (0, 1):
+            rows = [method_row(0, 0, 1, 2, [(0, 2)]), method_row(1, 0, 0, 0, [(1, 0)]), method_row(0, 0, 4, 3, [(3, 0)])]
+            rows[pos][0] = recv + 32
+            rows[pos][1] |= 4
+            cases.append("1 0 | %s" % " ; ".join(" ".join(map(str, r)) for r in rows))
+    cases.append("1 1 | %s" % " ; ".join(" ".join(map(str, r)) for r in [method_row(32, 4, 6, 2, []), method_row(0, 0, 6, 2, []), method_row(33, 4, 0, 0, [(1, 0)]), method_row(1, 0, 7, 0, [(4, 3)])]))
+    cases.append("1 0 | %s" % " ".join(map(str, method_row(32, 4, 1, 2, [(0, 2)]))))
+    for recv in (0, 1, 2):
+        for ret in (0, 1, 2, 3, 4, 6, 11):
+            if recv == 2 and ret in (2, 3):
+                continue
+            for args in ([], [(1, 2)], [(3, 0), (4, 3)], [(2, 0), (12, 1)], [(6, 2), (5, 2)]):
+                if ret in (2, 3) and args:
+                    continue
+                cases.append("1 0 | %s" % " ".join(map(str, method_row(recv + 64, 0, ret, 2, args))))
+    cases.append("1 1 | %s" % " ; ".join(" ".join(map(str, r)) for r in [method_row(64, 0, 6, 2, [(1, 0)]), method_row(1, 0, 0, 0, [(3, 0)]), method_row(65, 2, 11, 3, [(4, 3), (2, 0)])]))
     # default bodies / explicit lifetime generics on the method (flags +4 / +8 of the intmode field) do not change the glue
     for flags in (4, 8, 12):
         for recv in (0, 1, 2):
@@ -178,6 +197,11 @@ def ir_cases(rng, tier, only_wf=True):
                 im += rng.choice([4, 8, 12])
             if rng.chance(1, 4):
                 recv += 8
+            if rng.chance(1, 8):
+                recv += 64
+            elif rng.chance(1, 10):
+                recv += 32
+                im |= 4
             rows.append(method_row(recv, im, ret, rng.below(10), args))
         cases.append("1 %d%s | %s" % (ti, " 1" if rng.chance(1, 3) else "", " ; ".join(" ".join(map(str, r)) for r in rows)))
     return cases, {"ir_exhaustive_single_method": n_ex, "ir_random_multi_method": nrand, "of_which_in_generic_traits": sum(1 for c in cases if c.split("|")[0].split()[2:3] == ["1"])}
@@ -206,6 +230,9 @@ def grp_cases(rng, tier, mid=4):
              (["M"], ["Conv<u8,u16>=Narrow", "Conv<u16,u8>=Wide"])]
     for mand, opt in fixed:
         cases.append("%d %d | %s" % (mid, len(mand), " ; ".join(enc_name(n) for n in mand + opt)))
+        if mid == 204:     # the forward list is independent of the owned list: absent (1), its complement (2), rotated (3)
+            for fm in (1, 2, 3):
+                cases.append("%d %d %d | %s" % (mid, len(mand), fm, " ; ".join(enc_name(n) for n in mand + opt)))
     gens = ["Get<u8>=", "Get<u16>=", "Get<u32>=", "Get<i64>=", "Map<u8,u8>=", "Map<u8,u16>="]
     for _ in range(nrand):
         names = list(pool)
@@ -223,7 +250,7 @@ def grp_cases(rng, tier, mid=4):
                 j = rng.below(i + 1)
                 pool_g[i], pool_g[j] = pool_g[j], pool_g[i]
             sel = [(pool_g.pop() + n) if (pool_g and rng.chance(1, 2)) else n for n in sel]
-        cases.append("%d %d | %s" % (mid, nm, " ; ".join(enc_name(n) for n in sel)))
+        cases.append(("%d %d | %s" if mid != 204 else "%%d %%d %d | %%s" % rng.below(4)) % (mid, nm, " ; ".join(enc_name(n) for n in sel)))
     return cases, {("group_definitions" if mid == 4 else "impl_group_tables"): len(cases), "max_optional": maxopt}
 
 
@@ -307,6 +334,25 @@ def consume_cases(rng, tier):
     return cases, {"consuming_call_histories": len(cases)}
 
 
+def assoc_cases(rng, tier, with_alias=True):
+    """'111 <container> | calls': WRAPPED ASSOCIATED TYPES — a bank hands out its cells as borrowed / mutably borrowed / owned children (single-trait and group
+    objects); which cell a call returns depends on its argument and on the bank's state (harness/prog/src/assoc.rs).  Op 9 keeps two children of one
+    `&self` method in use at once."""
+    fixed = [[1], [0, 1], [1], [2, 2], [2, 0], [3, 1, 7], [3, 2, 9], [4, 5], [1], [0, 2], [4, 11], [5, 0, 3], [5, 2, 4], [6, 1], [6, 0], [7, 0, 13], [7, 2, 1], [8, 1, 6], [2, 0], [2, 1], [2, 2], [6, 2]]
+    cases = ["111 %d | %s" % (k, " ; ".join(" ".join(map(str, o)) for o in fixed)) for k in (0, 1, 2)]
+    if with_alias:
+        cases += ["111 %d | 9 0 1 ; 9 1 1 ; 9 2 0" % k for k in (0, 1, 2)]
+    n = 30 if tier == "quick" else 800
+    for _ in range(n):
+        ops = []
+        for _ in range(rng.range(1, 25)):
+            c = rng.choice([0, 1, 2, 2, 3, 3, 4, 5, 6, 6, 7, 7, 8] + ([9] if with_alias else []))
+            i, j, v = rng.below(3), rng.below(3), rng.range(-50, 1000)
+            ops.append({0: [0, i], 1: [1], 2: [2, i], 3: [3, i, v], 4: [4, v], 5: [5, i, v], 6: [6, i], 7: [7, i, v], 8: [8, i, v], 9: [9, i, j]}[c])
+        cases.append("111 %d | %s" % (rng.below(3), " ; ".join(" ".join(map(str, o)) for o in ops)))
+    return cases, {"wrapped_associated_type_histories": len(cases)}
+
+
 def fwd_ir_cases(rng, tier):
     """'201 <ti> <generic> | methods': the impl that the REAL #[cglue_forward] generator emits for Fwd<O>, abstracted per method (harness/gen fwd)"""
     base, _ = ir_cases(rng, "quick")
@@ -316,6 +362,8 @@ def fwd_ir_cases(rng, tier):
         h = hdr.split()
         # by-value methods cannot be forwarded unless they have a default body; the renderer gives vtbl_only ones a body
         rows = [[int(x) for x in r.split()] for r in body.split(";") if r.strip()]
+        if any(r[0] & 32 for r in rows):
+            continue         # #[skip_func] is the subject of the trait generator's cases; the forward model knows exported methods only
         if any((r[0] & 3) == 2 and not (r[1] & 4) and not (r[0] & 4) for r in rows):
             for r in rows:
                 if (r[0] & 3) == 2:
@@ -363,7 +411,11 @@ def life_cases(rng, tier, with_borrowed=True):
     if with_borrowed:
         cases.append("106 | 9 3 ; 3 0 ; 3 0 ; 3 0")
     # the same fixed histories with a ZERO-SIZED user context whose Clone/Drop keep the count ('106 1 | ..')
-    cases += [c.replace("106 |", "106 1 |", 1) for c in cases]
+    base = list(cases)
+    cases += [c.replace("106 |", "106 1 |", 1) for c in base]
+    # ... with a context whose payload is OVER-ALIGNED (64 bytes), erased ('106 2 | ..'), and with a FOREIGN context: a handle built through the published
+    # three-field layout whose clone/release functions keep the count in a record of their own ('106 3 | ..')
+    cases += [c.replace("106 |", "106 2 |", 1) for c in base] + [c.replace("106 |", "106 3 |", 1) for c in base]
     n = 300 if tier == "quick" else 6000
     for _ in range(n):
         ops, kinds = [], []
@@ -412,8 +464,9 @@ def life_cases(rng, tier, with_borrowed=True):
                 kinds[h] = "D"
                 if k == "G1": kinds.append("GC")
             elif c == 12: kinds[h] = "D"; kinds.append("G1")
-        cases.append(("106 1 | " if rng.chance(1, 3) else "106 | ") + " ; ".join(" ".join(map(str, o)) for o in ops))
-    return cases, {"lifecycle_histories": len(cases), "of_which_zero_sized_user_context": sum(1 for c in cases if c.startswith("106 1 "))}
+        cases.append(rng.choice(["106 | ", "106 | ", "106 1 | ", "106 1 | ", "106 2 | ", "106 3 | "]) + " ; ".join(" ".join(map(str, o)) for o in ops))
+    return cases, {"lifecycle_histories": len(cases), "of_which_zero_sized_user_context": sum(1 for c in cases if c.startswith("106 1 ")),
+                   "of_which_over_aligned_erased_context": sum(1 for c in cases if c.startswith("106 2 ")), "of_which_foreign_context": sum(1 for c in cases if c.startswith("106 3 "))}
 
 
 def box_cases(rng, tier):
@@ -483,9 +536,16 @@ def ir_monitor(l, impl_rows):
     rows = [[int(x) for x in r.split()] for r in impl_rows.split(" ; ")]
     if len(rows) != len(methods):
         return ["%d vtable rows for %d methods" % (len(rows), len(methods))]
+    want = 0
     for k, (m, r) in enumerate(zip(methods, rows)):
         try:
-            fails.extend(_ir_monitor_row(k, m, r, hdr))
+            if m[0] & 32:
+                if r != [-9, 0, 0, 0]:
+                    fails.append("#[skip_func] method m%d is exported: vtable slot %s, wrapper %s, forwarding method %s (an excluded method must have none, and must not shift the slots after it)"
+                                 % (k, *("present" if x else "absent" for x in (r + [0, 0, 0])[1:4])))
+                continue
+            fails.extend(_ir_monitor_row(k, m, r, hdr, want))
+            want += 1
         except (ValueError, IndexError):
             fails.append("method %d: expansion not recognised" % k)
     return fails[:4]
@@ -494,13 +554,13 @@ def ir_monitor(l, impl_rows):
 RESULT_RETS = (6, 7, 11, 12, 13, 15)
 
 
-def _ir_monitor_row(k, m, r, hdr=None):
+def _ir_monitor_row(k, m, r, hdr=None, want_pos=None):
     fails = []
     if True:
         if len(r) < 8:
             return ["method %d: expansion not recognised" % k]
         pos, reprc, abic, recv, nc = r[0:5]
-        if pos != k: fails.append("method %d sits in vtable slot %d (declaration order broken)" % (k, pos))
+        if pos != (k if want_pos is None else want_pos): fails.append("method %d sits in vtable slot %d instead of %d (one slot per exported method, in declaration order)" % (k, pos, k if want_pos is None else want_pos))
         if reprc != 1: fails.append("vtable struct is not #[repr(C)]")
         if abic != 1: fails.append("vtable entry %d is not an extern \"C\" function pointer" % k)
         vtbl_only = bool(m[0] & 4)
